@@ -203,11 +203,11 @@ func (t *Transaction) Bulk(handle Handle, ops []Operation, ordered bool) ([]Resu
 		// run operation
 		switch op.Opcode {
 		case Insert:
-			res, err = t.insert(handle, oplog, namespace, op.Document)
+			res, err = t.insert(handle, oplog, namespace, bsonkit.Clone(op.Document))
 		case Replace:
-			res, err = t.replace(handle, oplog, namespace, op.Filter, op.Document, op.Sort, op.Upsert)
+			res, err = t.replace(handle, oplog, namespace, op.Filter, bsonkit.Clone(op.Document), op.Sort, op.Upsert)
 		case Update:
-			res, err = t.update(handle, oplog, namespace, op.Filter, op.Document, op.Sort, op.Upsert, op.Skip, op.Limit, op.ArrayFilters)
+			res, err = t.update(handle, oplog, namespace, op.Filter, bsonkit.Clone(op.Document), op.Sort, op.Upsert, op.Skip, op.Limit, op.ArrayFilters)
 		case Delete:
 			res, err = t.delete(handle, oplog, namespace, op.Filter, op.Sort, op.Skip, op.Limit)
 		default:
@@ -474,6 +474,9 @@ func (t *Transaction) Update(handle Handle, query, sort, update bsonkit.Doc, ski
 	if t.catalog.Namespaces[handle] == nil && !upsert {
 		return &Result{}, nil
 	}
+
+	// clone update as its values become part of the updated documents
+	update = bsonkit.Clone(update)
 
 	// clone catalog
 	clone := t.catalog.Clone()
